@@ -576,6 +576,49 @@ def main():
             f.write(json.dumps({"id": "c17-%d" % k, "fn": "", "args": [], "impl": [], "oracle_ok": not errs, "oracle_msg": "; ".join(errs[:3]),
                                 "class": cls, "nontrivial": True, "meta": meta}) + "\n")
         model_cases(mlar, random.Random(int(seed) * 104729 + 5), os.path.join(work, "model"), tier, f)
+        dotdot_cases(mlar, os.path.join(work, "dotdot"), f)
+
+
+def dotdot_cases(mlar, work, f):
+    """Input files named with a parent-directory component (`mlar create ../d/x`): the regression witness of the repaired
+    to-tar defect (a member of >= 100 bytes with `..` left an orphaned GNU long-name entry that renamed the NEXT member),
+    and the open finding K17-totar-dotdot-omitted (such members are left out of the tar with exit status 0)."""
+    import io
+    import tarfile
+    shutil.rmtree(work, ignore_errors=True)
+    os.makedirs(os.path.join(work, "w", "sub"))
+    os.makedirs(os.path.join(work, "d"))
+    cwd = os.path.join(work, "w", "sub")
+    longn = "x" * 100
+    files = {"../../d/" + longn: b"EVIL", "zz": b"good", "../../d/s": b"short"}
+    for n, c in files.items():
+        with open(os.path.join(cwd, n), "wb") as g:
+            g.write(c)
+    rc, _, _ = run(mlar, ["create", "-l", "-o", "../a.mla", "--"] + list(files), cwd)
+    rc2, out, _ = run(mlar, ["to-tar", "-i", "../a.mla", "-o", "-"], cwd)
+    members = {}
+    try:
+        with tarfile.open(fileobj=io.BytesIO(out)) as t:
+            for m in t:
+                members[m.name] = t.extractfile(m).read()
+    except Exception as e:  # noqa: BLE001
+        members = {"<unreadable tar>": str(e).encode()}
+    # (1) fixed: no member may carry the bytes of another file
+    wrong = [n for n, c in members.items() if files.get(n, files.get("./" + n)) != c]
+    f.write(json.dumps({"id": "c17-dotdot-misattributed", "fn": "", "args": [], "impl": [], "class": "dotdot to-tar members keep their own bytes",
+                        "oracle_ok": rc == 0 and not wrong, "nontrivial": True,
+                        "oracle_msg": "" if rc == 0 and not wrong else "to-tar: member(s) %s do not carry the bytes of the input file of that name" % wrong[:2],
+                        "meta": {"members": sorted(members), "status": rc2}}) + "\n")
+    # (2) open finding: the members named with `..` are omitted although the command exits 0
+    missing = [n for n in files if n not in members and n.lstrip("./") not in members]
+    ok = not (rc2 == 0 and missing)
+    c = {"id": "c17-dotdot-omitted", "fn": "", "args": [], "impl": [], "class": "dotdot to-tar gives every file back", "oracle_ok": ok, "nontrivial": True,
+         "oracle_msg": "" if ok else "to-tar exits 0 but leaves out %d input file(s) whose path holds a `..` component" % len(missing),
+         "meta": {"missing": [m[-20:] for m in missing], "status": rc2}}
+    if not ok and all(".." in m.split("/") for m in missing):
+        c["known"] = "K17-totar-dotdot-omitted"
+    f.write(json.dumps(c) + "\n")
+    shutil.rmtree(work, ignore_errors=True)
 
 
 if __name__ == "__main__":
